@@ -474,6 +474,20 @@ def _index(r, p, cg, summ):
 
 def _rebuild(r, p, cg):
     vf = p.cls("vsg.vhdlFile.vhdlFile:vhdlFile")
+    # the rebuild entry point itself: unconditional.  The two normalisers it follows can change the list without changing
+    # its length (whitespace-only line -> blank_line; +1 and -1 cancelling), so no cheap "nothing changed" test is sound.
+    ut = p.functions.get("vsg.vhdlFile.vhdlFile:vhdlFile.update_token_map")
+    if ut is None:
+        raise AnalysisError("vhdlFile.update_token_map vanished")
+    asg = [n for n in walk_function(ut.node) if isinstance(n, ast.Assign) and norm(n.targets[0]) == "self.oTokenMap" and norm(n.value) == "process_tokens(self.lAllObjects)"]
+    if not asg:
+        r.fail("C18.rebuild", ut.key + ":rebuild", "update_token_map no longer rebuilds the index from the current token list", ut.loc())
+    else:
+        conds = Facts(ut.node).conds_at(asg[0])
+        if conds or Facts(ut.node).in_loop(asg[0]):
+            r.fail("C18.rebuild", ut.key + ":conditional", "update_token_map rebuilds the index only under `%s`: the normalisers before it can move tokens without changing the length of the list, so the rules of the following phases would read a stale index" % (conds[0][0] if conds else "a loop"), ut.loc(asg[0]))
+        else:
+            r.ok("C18.rebuild", ut.key, "rebuilds the index unconditionally from the current token list")
     writers = []
     for fi in p.functions.values():
         for n in walk_function(fi.node):
@@ -611,6 +625,8 @@ VARIANTS = [
             [("vsg/vhdlFile/extract/utils.py", "def get_indexes_of_token_list(lTokens, oTokenMap):\n", "def get_indexes_of_token_list(lTokens, oTokenMap):\n    if len(lTokens) == 1:\n        return oTokenMap.get_token_indexes(lTokens[0])\n")], rule="C18.index", key="lStartIndexes.append(iMax)"),
     Variant("C18", "twin: helper returns a copy of the index's list", "silent",
             [("vsg/vhdlFile/extract/utils.py", "def get_indexes_of_token_list(lTokens, oTokenMap):\n", "def get_indexes_of_token_list(lTokens, oTokenMap):\n    if len(lTokens) == 1:\n        return list(oTokenMap.get_token_indexes(lTokens[0]))\n")]),
+    Variant("C18", "index rebuild after the normalisers skipped when the length is unchanged", "fire",
+            [("vsg/vhdlFile/vhdlFile.py", "    def update_token_map(self):\n        self.oTokenMap = process_tokens(self.lAllObjects)", "    def update_token_map(self):\n        if self.oTokenMap.iMaxToken != len(self.lAllObjects):\n            self.oTokenMap = process_tokens(self.lAllObjects)")], rule="C18.rebuild", key="conditional"),
     Variant("C18", "index rebuild dropped after normalisers", "fire",
             [("vsg/rule_list.py", "                self.oVhdlFile.fix_trailing_whitespace()\n                self.oVhdlFile.update_token_map()", "                self.oVhdlFile.fix_trailing_whitespace()")], rule="C18.rebuild"),
     Variant("C18", "update applies updates first-to-last", "fire",
